@@ -59,6 +59,18 @@ CHECKS["C07"] = dict(
     technique="Lean 4 invariant proofs over a run-to-quiescence model + differential correspondence under synctest virtual time",
     design="5/C07", engine="allocator")
 
+CHECKS["C12"] = dict(
+    text="Kernel-checked inductive invariant of a transition system whose steps are the atomic operations of lib.Task (any number "
+         "of concurrent Start/Stop calls, unbounded restarts), giving for every reachable state: no double close and never two "
+         "concurrent runs; completion only if the function returned on its own or the parent ended (and a Stop-induced return "
+         "does not complete); once a generation's stop channel is closed its goroutine is gone and anything alive is a later "
+         "generation; the running flag is set iff somebody is responsible for it, so a Start after a completed Stop-wait runs the "
+         "function again; whoever must close a cancelled generation's stop channel can always step (rank decreases: no waiter "
+         "blocked). The code is tied to the model by verif points: a controller replays seeded interleavings step by step on the "
+         "real Task and the model, and a monitor judges the real trace; plus an uncontrolled stress.",
+    technique="Lean 4 inductive invariant over an interleaving transition system + schedule-controlled correspondence through verif points",
+    design="5/C12", engine="lib")
+
 NOT_YET = {}
 
 ALL = ["C%02d" % i for i in range(1, 21)]
@@ -106,7 +118,7 @@ def main():
     json.dump(m, open("/verif/MANIFEST.json", "w"), indent=1)
 
 
-HOOK_COMMITS = []
+HOOK_COMMITS = ["7817c1b"]
 
 if __name__ == "__main__":
     main()
